@@ -32,13 +32,13 @@ CLAIMS = {
    note="Axioms: propext, Classical.choice, Quot.sound. That intra / not-coded neighbours contribute zero candidates is an invariant of the macroblock loop (the decoder stores zero vectors for them), exercised by correspondence on P pictures (C03 generator), not proved here.",
    design="DESIGN.md §4 C12", technique="Lean 4 proof (omega, case analysis, decide +kernel over the regenerated table) + exhaustive correspondence"),
  "C10": dict(
-   text="Lean 4 theorems evaluated by native_decide over a bit-exact soft-float (binary32, RNE, no FMA) model of the IDCT with the basis table regenerated from the source: for generator seed 1 and each of the six Annex A ranges (10,000 blocks each) peak error <= 1, per-position mse <= 0.06, overall mse <= 0.02, per-position mean error <= 0.015, overall mean error <= 0.0015 against an exact (40-digit) reference transform; all 4095 DC-only blocks and 20,000 random first-row / first-column blocks within 1; all-zero block -> zeros (kernel decide). The model is tied to the real idct_channel bit for bit by correspondence on the same blocks (predictions 0 and 255), and the five statistics are recomputed from the implementation's own outputs.",
+   text="Lean 4 theorems evaluated by native_decide over a bit-exact soft-float (binary32, RNE, no FMA) model of the IDCT with the basis table regenerated from the source: for generator seed 1 and each of the six Annex A ranges (10,000 blocks each) peak error <= 1, per-position mse <= 0.06, overall mse <= 0.02, per-position mean error <= 0.015, overall mean error <= 0.0015 against an exact (40-digit) reference transform; all 4095 DC-only blocks and 20,000 random first-row / first-column blocks within 1; all-zero block -> zeros (kernel decide); and, for ALL blocks with coefficients in -2048..2048 and all four shape paths, no f32 intermediate leaves the normal range (interval analysis, ordinary axioms), so the soft-float model is exact IEEE arithmetic wherever it is used. The model is tied to the real idct_channel bit for bit by correspondence on the same blocks (predictions 0 and 255), and the five statistics are recomputed from the implementation's own outputs.",
    note="Axioms: propext, Classical.choice, Quot.sound and, for the nine statistical theorems, the per-call native_decide axioms (trust in the Lean compiler/runtime) - the only theorems in the framework that use native_decide. The reference transform uses 40-digit cosine constants and exact integer arithmetic in place of the procedure's double precision (difference < 1e-33). A universal (all blocks) peak-error theorem is not claimed. The u8 output plane shows residuals only within -255..255, so the implementation-side statistics clip at -255; the model-level theorems use -256..255.",
    design="DESIGN.md §4 C10", technique="Lean 4 native_decide over a soft-float model with regenerated table + bit-exact correspondence"),
  "C01": dict(
-   text="Lean 4 model of the whole decode path in which every Rust panic site (index, slice, checked arithmetic, division, unwrap, assertion) is an explicit `panic` outcome and every data-driven loop takes fuel; theorems: the start-code search can neither panic nor run out of fuel (it consumes a bit per iteration), the quantizer update cannot overflow, candidate prediction never indexes out of bounds at any position of any picture width, dequantisation is bounded. The model is tied to the code by correspondence on valid, corrupted and random streams after random histories under all four option combinations (panic / no panic), every call under catch_unwind with overflow checks and debug assertions on.",
-   note="PARTIAL: component-level totality theorems only; the composition `decodeNextPicture never yields panic or fuel` is not yet proved, so for whole calls the claim rests on the model/code correspondence plus the direct observation that no call panics. Allocation failure, stack exhaustion, aborts and wall-clock behaviour are runtime behaviour a Lean model cannot exhibit (harness observes CRASH / TIMEOUT). Axioms: propext, Classical.choice, Quot.sound.",
-   design="DESIGN.md §4 C01", technique="Lean 4 proof (component totality) + panic-class correspondence on malformed streams"),
+   text="Lean 4 model of the whole decode path in which every Rust panic site (index, slice, checked arithmetic, division, unwrap, assertion) is an explicit `panic` outcome and every data-driven loop takes fuel bounded by the unread bits. Theorems (all option sets, all histories, all bit strings): `decode_next_picture` returns the new state or an error value - `panic` and `fuel` are unreachable (decode_never_crashes), and this holds after every history of deliveries, successful and failed decode calls and clean-ups on a fresh decoder (history_never_crashes), incl. reference pictures of other sizes, zero sizes, more macroblocks than the picture holds, saturating escape levels, accumulated UMV vectors; the macroblock loop terminates because every iteration consumes a bit or adds a macroblock. Proved by a program logic over the parser monad (every header / macroblock / block parser total, VLC roots checked on the regenerated tables), a loop invariant (quantizer <= 31, level-array sizes and bounds, vector/type counts), index-range lemmas for inverse_rle, gather and idct_channel, and an interval analysis showing that no f32 intermediate of the IDCT leaves the normal range. The model is tied to the code by correspondence on valid, corrupted and random streams after random histories under all four option combinations, every call under catch_unwind with overflow checks and debug assertions on.",
+   note="Complete at model level (no `_partial`). The theorem is about the model: that the model panics exactly where the code does is what the correspondence (panic / no-panic class per case) establishes. usize/isize arithmetic is modelled on unbounded Nat/Int (64-bit target; picture dimensions are u16). Allocation failure (sizes that do not fit in memory are excluded by the property), stack exhaustion, aborts and wall-clock behaviour are runtime behaviour a Lean model cannot exhibit (the harness observes CRASH / TIMEOUT). Axioms: propext, Classical.choice, Quot.sound.",
+   design="DESIGN.md §4 C01, §8.5", technique="Lean 4 proof (totality of the whole decode path: program logic + loop invariant + index arithmetic) + panic-class correspondence on malformed streams"),
  "C02": dict(
    text="Lean 4 theorems: the regenerated TCOEF, MCBPC-I and CBPY trees decode every codeword of Tables 16, 7, 13 (incl. ESCAPE and stuffing) to the specified symbol, and are prefix codes (codewords decode identically in front of any bits); planes are allocated with exactly the signalled sizes; dequantisation = the H.263 formula (C11). The picture-level behaviour (positions, quantizer tracking, zig-zag placement, four IDCT shapes, cropping) is modelled in full (soft-float IDCT) and tied to the code bit-exactly by correspondence on intra pictures written by the specification encoder.",
    note="PARTIAL: no picture-level round-trip theorem `decode (encode P) = reconstruct P` yet; the ideal-transform tolerance clause is delegated to C10. Axioms: propext, Classical.choice, Quot.sound.",
